@@ -22,7 +22,8 @@ RULE = ("A real device (Application + Who-Is/I-Am, ReadProperty, WriteProperty, 
         "final valid ReadProperty is answered with the right value. Non-trivial: a frame that passes NPCI+APCI header validation "
         "and is rejected deeper, or a history interleaving garbage and valid frames in one instant. Distinct by the frames."
         " Also: the device keeps I-Ams (all segmentation values incl. out-of-enumeration, max-APDU incl. 0/49/70000) and is then asked with and without segmented-response-accepted; Network-Number-Is learned 1..3 times before routed requests; dialogs in which the requester takes a segmented answer properly while unmatched aborts / segment-acks from others arrive (content equal to the undisturbed run); link-layer runs on BIPSimple / BIPBBMD / BIPForeign devices."
-        " Hand-driven segmented requests with one damaged sequence number, answer compared with the request sent in one piece.")
+        " Hand-driven segmented requests with one damaged sequence number, answer compared with the request sent in one piece."
+        " The device configured segmentedReceive is sent segmented requests. One reduced copy of a generated shard runs with the library's debug tracing switched on (label tracing-on).")
 ASSUMPTIONS = [
     "frames carrying a DADR (routed / broadcast destinations) are not judged: a one-port device is not their addressee",
     "exceptions swallowed by the event loop name the root cause in the signature; they are not violations by themselves",
